@@ -175,7 +175,10 @@ func (g *gen) kvReads(t *hx.Tx, b string, full bool) {
 		if g.r.Intn(2) == 0 {
 			lim = len(kvKeys) + 1
 		}
-		t.PrefixSearchScan(b, []byte(p), reg, ms, bad, 0, lim)
+		if g.s.Opt.EntryIdxMode != nutsdb.HintBPTSparseIdxMode || g.paged {
+			// (C02 does not list PrefixSearchScan for sparse mode; C03 does)
+			t.PrefixSearchScan(b, []byte(p), reg, ms, bad, 0, lim)
+		}
 		if g.paged {
 			// C03: offset and limit over 0..n+1 (and ScanNoLimit)
 			for q := 0; q < 4; q++ {
